@@ -64,6 +64,18 @@ C17_ReceiveCrossingFails(disk, path, sigblocks, staged) == (PathCrosses(disk, pa
 \* ... and a root file behind a link is not used as a copy source (the request still needs data)
 C17_CopyCrossingFails(disk, src, reqpath, ret) == PathCrosses(disk, src) => ret = <<reqpath>>
 
+\* The staging root itself (in internal staging mode it lives inside the
+\* synchronization root, in neighboring mode next to it): whatever already sits at
+\* its path when a store is first used - a symbolic link (to a directory outside or
+\* inside the root, to a file, to nothing), a regular file, or a real directory
+\* whose two-hex-digit prefix entries are links - is never followed: Stage fails
+\* unless it is a real directory of real prefix directories (or absent).
+\* srootKind: what the walker (lstat) found at the staging root path before the first
+\* Stage: "none" | "dir" | "link" | "file" | "other"; prefixLink: a prefix entry inside
+\* it is a symbolic link.
+C17_StagingRootNotFollowed(srootKind, prefixLink, stageErr) ==
+  (srootKind \in {"link", "file", "other"} \/ prefixLink) => stageErr # ""
+
 (***************************************************************************)
 (* Part 2. The scenario matrix                                              *)
 (***************************************************************************)
@@ -82,4 +94,12 @@ Applicable(s) ==
   /\ (s.pos = 3 /\ s.kind = "file") => FALSE
 Scenarios == {s \in [op : Ops, pos : Positions, kind : TargetKinds, moment : Moments, form : Forms] : Applicable(s)}
 
+
+\* second matrix: the staging root. StageInit = a Stage call that needs data,
+\* StageWrite = + reception of the file, StageFinalize = + Transition and Shutdown.
+StagingOps == {"stage_init", "stage_write", "stage_finalize"}
+StagingModes == {"mutagen", "neighboring", "internal"}
+StagingPre == {"absent", "dir", "link_out", "link_in", "link_file", "dangling", "file", "prefix_link"}
+StagingScenarios == [op : StagingOps, smode : StagingModes, pre : StagingPre]
+IsStaging(s) == "smode" \in DOMAIN s
 ====
